@@ -195,8 +195,6 @@ def check_varn(shape, is_rec, is_read, strict, num, starts, counts, fmt=1):
         else:
             c = None if counts is None else counts[i]
             v = check_box(shape, is_rec, is_read, strict, "var1" if c is None else "vara", starts[i], c, None, fmt)
-            if v.allowed == frozenset([EINVALCOORDS, ENULLSTART]):
-                v = Verdict([ENULLSTART])
         if v.accepted:
             total += v.nelems
         else:
@@ -219,23 +217,32 @@ def check_flex(index_verdict, bufcount, buf_nelems, derived, buftype_null=False)
     v = index_verdict
     if buftype_null:
         return v
+    # a request is zero-length when its index arguments address nothing or when bufcount == 0; the documentation says such
+    # requests succeed without effect but not whether the buffer description is still validated -> NC_NOERR also accepted
+    zero_len = (v.accepted and v.nelems == 0) or bufcount == 0
     if bufcount == -1:
         if not derived:
             return v                                   # operates as the high-level API
         if v.rejected:
-            return v                                   # index errors precede NC_EINVAL [P]
+            # [P] ranks the index errors before NC_EINVAL for the blocking var1/vara/vars/varm calls; for the other
+            # entry points (varn, nonblocking) the order is not documented -> either fault may be reported
+            return Verdict(set(v.allowed) | {EINVAL}, first=v.first, why=v.why + " (+NC_COUNT_IGNORE with derived buftype)")
+        if zero_len:
+            return Verdict([NOERR, EINVAL], nelems=0, why="zero-length, NC_COUNT_IGNORE with derived buftype")
         return Verdict([EINVAL], why="NC_COUNT_IGNORE with derived buftype")
     if bufcount < 0:
         raise ValueError("negative bufcount other than NC_COUNT_IGNORE is outside the model")
     have = bufcount * buf_nelems
     if v.rejected:
-        # the request's element count may be undefined (negative counts); position of NC_EIOMISMATCH undocumented
-        return Verdict(set(v.allowed) | {EIOMISMATCH}, first=v.first, why=v.why + " (+mismatch?)")
+        # the request's element count may be undefined (negative counts); position of NC_EIOMISMATCH undocumented;
+        # bufcount == 0 may short-cut the call before the index arguments are looked at
+        extra = {EIOMISMATCH} | ({NOERR} if bufcount == 0 else set())
+        return Verdict(set(v.allowed) | extra, first=v.first, why=v.why + " (+mismatch / bufcount 0?)")
     if have == v.nelems:
         return v
-    if v.nelems == 0 or bufcount == 0:
-        # zero-length request (or bufcount == 0) with a disagreeing buffer description: success without any
-        # effect or a size mismatch error - either way nothing may change
+    if zero_len:
+        # zero-length request with a disagreeing buffer description: success without any effect or a size mismatch
+        # error - either way nothing may change
         return Verdict([NOERR, EIOMISMATCH], nelems=0, why="zero-length with size mismatch")
     return Verdict([EIOMISMATCH], why="size mismatch")
 
